@@ -387,6 +387,57 @@ def _decl_chunk(progs):
     return res
 
 
+def wide_cases(tier):
+    """programs whose size crosses index-width boundaries (2**7, 2**8, 2**16): declarations per scope, parameters, fields, tuple items,
+    variants, captured names, nesting depth, operator chains.  (source expression, expected value)"""
+    small = [127, 128, 255, 256, 257, 300] if tier == 'quick' else [15, 16, 17, 31, 32, 63, 64, 127, 128, 129, 255, 256, 257, 300, 511, 512, 1000, 1023, 1024, 1025]
+    large = [1000] if tier == 'quick' else [4095, 4096, 65535, 65536, 65537]
+    out = []
+    for n in small:
+        lets = 'let v0 = 0; ' + ''.join('let v%d = v%d + 1; ' % (i, i - 1) for i in range(1, n))
+        out.append(('lets-in-body|%d' % n, '(()->{ %sv%d })()' % (lets, n - 1), n - 1))
+        out.append(('lets-read-first-and-last|%d' % n, '(()->{ %s(v0, v%d, v%d) })()' % (lets, n // 2, n - 1), (0, n // 2, n - 1)))
+        ps = ', '.join('p%d: int' % i for i in range(n))
+        out.append(('parameters|%d' % n, '((%s)->{ p0 * 1000000 + p%d * 1000 + p%d })(%s)' % (ps, n // 2, n - 1, ', '.join(str(i % 997) for i in range(n))),
+                    0 + ((n // 2) % 997) * 1000 + (n - 1) % 997))
+        dps = ', '.join('p%d: int ?= %d' % (i, i % 997) for i in range(n))
+        out.append(('default-parameters|%d' % n, '((%s)->{ p0 * 1000000 + p%d * 1000 + p%d })()' % (dps, n // 2, n - 1), 0 + ((n // 2) % 997) * 1000 + (n - 1) % 997))
+        out.append(('tuple-items|%d' % n, '(()->{ let t = (%s); (t::item0, t::item%d, t::item%d) })()' % (', '.join(str(i) for i in range(n)), n // 2, n - 1), (0, n // 2, n - 1)))
+        out.append(('array-literal|%d' % n, '(()->{ let t = [%s]; (t[0], t[%d], t[%d], t.len()) })()' % (', '.join(str(i) for i in range(n)), n // 2, n - 1), (0, n // 2, n - 1, n)))
+        out.append(('captured-names|%d' % n, '(()->{ %s let f = ()->{ %s }; f() })()' % (lets, ' + '.join('v%d' % i for i in range(n))), n * (n - 1) // 2))
+        out.append(('operator-chain|%d' % n, ' + '.join(['1'] * n), n))
+        out.append(('method-chain|%d' % n, '0' + '.add(1)' * n, n))
+        out.append(('string-concat-chain|%d' % n, ' + '.join(['"a"'] * n) + ' == "a" * %d' % n, True))
+        out.append(('if-chain|%d' % n, ''.join('if(%d == 0, %d, ' % (n - 1 - i, i) for i in range(n)) + '-1' + ')' * n, n - 1))
+    for n in [k for k in small if k <= 300]:
+        # nested functions, each level capturing the outermost parameter and its own
+        src = ''
+        for i in range(n):
+            src += 'fn g%d(a%d: int)->int{ ' % (i, i)
+        src += ' + '.join('a%d' % i for i in (0, n // 2, n - 1))
+        for i in reversed(range(n)):
+            src += ' } g%d(%d)' % (i, i + 1) if i else ' }'
+        out.append(('nesting-depth|%d' % n, '(()->{ %s g0(1) })()' % src, 1 + (n // 2 + 1) + n if n > 1 else 3))
+    for n in large:
+        out.append(('array-literal|%d' % n, '(()->{ let t = [%s]; (t[0], t[%d], t[%d], t.len()) })()' % (', '.join(str(i) for i in range(n)), n // 2, n - 1), (0, n // 2, n - 1, n)))
+        lets = 'let v0 = 0; ' + ''.join('let v%d = v%d + 1; ' % (i, i - 1) for i in range(1, n))
+        out.append(('lets-in-body|%d' % n, '(()->{ %sv%d })()' % (lets, n - 1), n - 1))
+        out.append(('tuple-items|%d' % n, '(()->{ let t = (%s); (t::item0, t::item%d, t::item%d) })()' % (', '.join(str(i) for i in range(n)), n // 2, n - 1), (0, n // 2, n - 1)))
+    return out
+
+
+def wide_struct_programs(tier):
+    """(program text, expected value of r): structs / unions with many members need top-level declarations"""
+    ns_ = [255, 256, 257] if tier == 'quick' else [127, 128, 255, 256, 257, 1000, 4096, 65535, 65536, 65537]
+    out = []
+    for n in ns_:
+        fields = ', '.join('f%d: int' % i for i in range(n))
+        out.append(('struct-fields|%d' % n, 'struct W(%s) let w = W(%s); let r = (w::f0, w::f%d, w::f%d);' % (fields, ', '.join(str(i) for i in range(n)), n // 2, n - 1), (0, n // 2, n - 1)))
+        out.append(('union-variants|%d' % n, 'union W(%s) let w = W::f%d(7); let r = (w?:f%d.has_value(), w?:f0.has_value(), w!:f%d, w?:f%d.has_value());' % (fields, n - 1, n - 1, n - 1, n // 2),
+                    (True, False, 7, False)))
+    return out
+
+
 def run(tier):
     rep = Report(PROP, tier, 'model_checking',
                  'reference evaluator written from the book, in lock-step with the implementation: (1) all operator strings of <=2 binary '
@@ -423,6 +474,34 @@ def run(tier):
             if cls in ('crash', 'rejected') or why:
                 rep.fail(Failure(PROP, '%s|%s' % (it[4], why or cls), {'src': it[0]}, repr(it[1]), actual,
                                  mk_unit_job([it[3]], [('c0', 'let c0 = ()->{ %s };' % it[0])], None, None, {'max_items': 64})))
+    # 6. wide programs
+    wc = wide_cases(tier)
+    rep.bounds['wide_programs'] = len(wc) + len(wide_struct_programs(tier))
+    witems = [(src, exp, None, PRELUDE, 'C02|wide|' + name) for name, src, exp in wc]
+    widx = 0
+    for res in pmap(_term_chunk, chunks(witems, 8)):
+        for cls, why, actual, out in res:
+            it = witems[widx]; widx += 1
+            rep.evaluations += 1
+            rep.outcome(cls)
+            rep.nontrivial.add(it[4])
+            if cls in ('crash', 'rejected') or why:
+                rep.fail(Failure(PROP, '%s|%s' % (it[4], why or cls), {'src': it[0][:2000]}, repr(it[1]), actual,
+                                 mk_unit_job([it[3]], [('c0', 'let c0 = ()->{ %s };' % it[0])], None, None, {'max_items': 64})))
+    for name, text, exp in wide_struct_programs(tier):
+        job = {'id': 0, 'limits': {}, 'dump': {'max_items': 16}, 'steps': [{'feed': text}, {'op': 'inst'}, {'op': 'get', 'name': 'r'}]}
+        from ..core import run_job, decode
+        r = run_job(job, timeout=120.0)
+        rep.evaluations += 1
+        sig = 'C02|wide|' + name
+        rep.nontrivial.add(sig)
+        if 'fatal' in r:
+            rep.outcome('crash')
+            rep.fail(Failure(PROP, sig + '|fatal:' + r['fatal'], {'src': text[:2000]}, repr(exp), r['fatal'], job)); continue
+        got = decode(r['replies'][2]['v']) if 'ok' in r['replies'][0]['v'] and 'ok' in r['replies'][1]['v'] else decode(r['replies'][0]['v'] if 'ok' not in r['replies'][0]['v'] else r['replies'][1]['v'])
+        rep.outcome('value' if veq(got, exp) else 'other')
+        if not veq(got, exp):
+            rep.fail(Failure(PROP, sig + '|wrong-value', {'src': text[:2000]}, repr(exp), repr(got)[:300], job))
     # 5. evaluation order
     oc = order_cases()
     rep.bounds['order_cases'] = len(oc)
